@@ -81,6 +81,19 @@ def run(out: Outcome) -> None:
             lines.append(f"mmd {dim} {n} {m} {'-' if cs is None else cs} {f2h(sigma)} " + " ".join(f2h(v) for v in np.concatenate([X.reshape(-1), Y.reshape(-1)])))
             expect.append((got, rep))
             out.case({"n": n, "m": m, "dim": dim, "cs": cs, "sigma": sigma, "offset": off, "scale": sc, "h": hash(X.tobytes() + Y.tobytes()) & 0xFFFFFF})
+    # ONE reference behind several differently configured detectors in one process (bandwidths, chunk sizes): each result is that detector's own
+    n, m = rng.randint(4, 10), rng.randint(4, 10)
+    X, Y = sample(rng, n, 1), sample(rng, m, 1)
+    for sigma in (0.5, 1.0, 2.5, 0.5):
+        for cs in (None, 2):
+            det = MMD(kernel=partial(rbf_kernel, sigma=sigma), chunk_size=cs)
+            det.fit(X=X)
+            got = float(det.compare(X=Y)[0].distance)
+            ref = unbiased(X, Y, sigma)
+            if abs(got - ref) > 1e-9:
+                out.violation(f"MMD(sigma={sigma}, chunk_size={cs}) fitted on a reference that other detectors in this process were fitted on returns {got!r}, its own unbiased estimator is {ref!r}",
+                              {"n": n, "m": m, "sigma": sigma, "chunk_size": cs, "X": X.tolist(), "Y": Y.tolist(), "kind": "shared reference"})
+            out.case({"shared_reference": True, "sigma": sigma, "cs": cs})
     # array dtype: integer-valued samples stored as int64 / int32 / int16 / uint8 / float32 arrays give the estimator of those VALUES
     # (differences of unsigned or narrow integers must not wrap)
     for dt in (np.int64, np.int32, np.int16, np.uint8, np.float32):
@@ -137,9 +150,20 @@ def run(out: Outcome) -> None:
         stream = [sample(rng, 1, dim, off)[0] for _ in range(w + rng.randint(0, 8))]
         lines.append(f"x sf {dim} " + " ".join(f2h(v) for v in ref.reshape(-1)))
         expect.append(None)
+        refit_at = rng.choice([None, None, rng.randint(1, len(stream) - 1)])      # a second fit() on the running detector (no reset): the reference changes, the window keeps sliding
         for t, v in enumerate(stream, 1):
-            r, _ = det.update(value=v)
-            rep = {"window": w, "dim": dim, "chunk_size": cs, "sigma": sigma, "ref": ref.tolist(), "stream": [x.tolist() for x in stream[:t]], "rejected_before_fit": rejected}
+            if refit_at == t:
+                ref = sample(rng, rng.randint(2, 9), dim, off)
+                det.fit(X=ref)
+                lines.append(f"x sf {dim} " + " ".join(f2h(x) for x in ref.reshape(-1)))
+                expect.append(None)
+            try:
+                r, _ = det.update(value=v)
+            except Exception as e:  # noqa: BLE001
+                out.violation(f"streaming MMD: update raised {type(e).__name__}: {e} at update {t}" + (" (after a second fit() at update %d)" % refit_at if refit_at and t >= refit_at else ""),
+                              {"window": w, "dim": dim, "refit_at": refit_at})
+                break
+            rep = {"window": w, "dim": dim, "chunk_size": cs, "sigma": sigma, "ref": ref.tolist(), "stream": [x.tolist() for x in stream[:t]], "rejected_before_fit": rejected, "refit_at": refit_at}
             lines.append("x su " + " ".join(f2h(x) for x in v))
             if t < w:
                 expect.append(("none", rep))
